@@ -525,3 +525,36 @@ func HeldAt(fn *ssa.Function, at ssa.Instruction) map[string]string {
 	}
 	return out
 }
+
+// HeldExclusiveAt is HeldAt restricted to locks taken with Lock (not RLock).
+func HeldExclusiveAt(fn *ssa.Function, at ssa.Instruction) map[string]string {
+	out := map[string]string{}
+	paths, _ := EnumPaths(fn, 4096)
+	for _, p := range paths {
+		if !p.Passes(at) {
+			continue
+		}
+		held := map[LockID]bool{}
+		for _, in := range p.InstrSeq() {
+			if in == at {
+				break
+			}
+			if call, ok := in.(*ssa.Call); ok {
+				if id, op, ok := lockOp(&call.Call); ok {
+					switch op {
+					case "Lock":
+						held[id] = true
+					case "Unlock":
+						delete(held, id)
+					}
+				}
+			}
+		}
+		for id := range held {
+			if _, dup := out[id.String()]; !dup {
+				out[id.String()] = p.CondString()
+			}
+		}
+	}
+	return out
+}
